@@ -14,6 +14,9 @@ hex, "-" = empty string; integers are decimal):
   geturl <rawpath> <none|hdr> <signing 0|1> <ttlNs> <key> <absent|p<bodyhex>> <nowNs>
         raw request path (percent-escapes as sent) and raw Authorization header value
         -> badurl | 301 <hex cleaned path> | status as for get
+  getremote <loc> <tok> <configured remote ids a,b|-> <ttlNs> <key> <absent|p<bodyhex> at the remote> <nowNs>
+        signing on, nothing stored locally under that hash unless stated by the generator
+        -> <status> [bodyhex] | <forwarded locator> <forwarded token>   ("| -" when nothing was sent)
   getnow <loc> <tok> <ttlNs> <key> <absent|p<bodyhex>> <nowNs>
         sign with expiry = nowNs/1e9 (the second that has begun), GET with signing on -> status as for get
   put <body> <tok> <tok2> <signing 0|1> <ttlNs> <key> <nowNs>
@@ -124,6 +127,33 @@ def step (line : String) : String :=
           | .handled _ => getStatus cfg (path.drop 1) (getAPIToken hdr) now body
       | _, _ => "bad-op"
     | _, _, _, _, _ => "bad-op"
+  | ["getremote", loc, tok, remotes, ttl, key, rpresent, now] =>
+    let body : Option (Option Str) :=
+      if rpresent == "absent" then some none
+      else if rpresent.startsWith "p" then
+        (if rpresent.length == 1 then some [] else decHex (rpresent.drop 1).toString).map some
+      else none
+    let ids : List Str := if remotes == "-" then [] else (remotes.splitOn ",").map String.toList
+    match decHex loc, decHex tok, ttl.toInt?, decHex key with
+    | some loc, some tok, some ttl, some key =>
+      match body, now.toInt? with
+      | some body, some now =>
+        let cfg : KSConfig := ⟨true, ttl, key⟩
+        match handleGET hmacSha1 cfg loc tok now with
+        | .remoteProxy =>
+          match remoteProxyGet hmacSha1 (fun r => ids.contains r) loc tok with
+          | .status code => s!"{code} | -"
+          | .forward _ fwd t =>
+            -- keepclient.Get answers the empty block itself, without a request
+            if "d41d8cd98f00b204e9800998ecf8427e+0".toList.isPrefixOf fwd then "200 - | -"
+            else
+              let st := match body with
+                | some b => "200 " ++ encHex b
+                | none => "404"
+              s!"{st} | {encHex fwd} {encHex t}"
+        | _ => getStatus cfg loc tok now none ++ " | -"
+      | _, _ => "bad-op"
+    | _, _, _, _ => "bad-op"
   | ["getnow", loc, tok, ttl, key, present, now] =>
     let body : Option (Option Str) :=
       if present == "absent" then some none
